@@ -283,6 +283,9 @@ mod python;
 #[cfg(target_family = "wasm")]
 mod wasm;
 
+#[cfg(grex_verif)]
+pub mod verif;
+
 pub use builder::RegExpBuilder;
 
 #[cfg(target_family = "wasm")]
